@@ -1,5 +1,6 @@
 import Qfx.Drv.Sess
 import Qfx.Drv.ValMon
+import Qfx.Drv.ValidMon
 import Qfx.Spec.Session
 namespace Qfx.Drv
 open Qfx.Sess Qfx.SessSpec
@@ -12,6 +13,9 @@ def parseItem? (s : String) : Option Item :=
     else none
   | ["cb", "fromApp", seq, t] => if t.startsWith "T=" then ((t.drop 2).toString.toInt?).map (Item.fromApp seq) else none
   | ["cb", "fromAdmin", k, seq] => some (.fromAdmin k seq)
+  | ["cb", "fromAdmin", k] => some (.fromAdmin k "")            -- (`34=` with an empty value, shown to the callback when
+  | ["cb", "fromApp", t] =>                                      --  ValidateFieldsHaveValues=N lets it through)
+    if t.startsWith "T=" then ((t.drop 2).toString.toInt?).map (Item.fromApp "") else none
   | ["cb", "onLogon"] => some .onLogon
   | ["cb", "onLogout"] => some .onLogout
   | ["arm", "peer", ms] => ms.toInt?.map Item.armPeer
@@ -51,13 +55,29 @@ def parseObsLine? (obs : List String) : Option (List Item × After) :=
        | [] => none)
     | [] => none
 
+/-- the monitor does not look into the dictionaries (the validator spec it evaluates is C15's declarative one, on what the
+    generator planted): a configured dictionary is represented by an empty one -/
+def monDict : Validate.VDict := { msg? := fun _ => none, header := none, trailer := none, ftype := fun _ => none }
+
+/-- `!<kind>,<tag>` (kinds as in family `valid`; `-` for no tag) -/
+def parsePlant? (tok : String) : SessSpec.Plant :=
+  if !tok.startsWith "!" then none else
+  match ((tok.drop 1).toString.splitOn ",") with
+  | [k, t] => (parseKind k "top").map fun kk => (kk, (t.toNat?).getD 0)
+  | _ => none
+
+def plantOfToks (toks : List String) : SessSpec.Plant :=
+  match toks with
+  | t :: _ => parsePlant? t
+  | [] => none
+
 def parseOp? (w : List String) : Option Op :=
   match w with
-  | "cfg" :: rest => (parseCfg? rest).map fun (c, s0, t0) => Op.cfg c s0 t0
+  | "cfg" :: rest => (parseCfg? (fun _ => some monDict) rest).map fun (c, s0, t0) => Op.cfg c s0 t0
   | ["connect"] => some .connect
   | ["in", "garbage"] => some .garbage
-  | "in" :: rest => (parseFields? rest).map fun f => Op.msgIn { f := f }
-  | "arrive" :: rest => (parseFields? rest).map fun f => Op.arrive { f := f }
+  | "in" :: rest => (parseFields? (dropPlant rest)).map fun f => Op.msgIn { f := f }
+  | "arrive" :: rest => (parseFields? (dropPlant rest)).map fun f => Op.arrive { f := f }
   | ["pop"] => some .pop
   | ["timeout", e] => (timerOf? e).map Op.timeout
   | ["disc"] => some .disc
@@ -70,9 +90,12 @@ def parseOp? (w : List String) : Option Op :=
 
 def sessMonStep (ms : M) (w : List String) : M × String :=
   let (opw, obs) := splitObs w
+  match opw with
+  | "ddict" :: _ => (ms, if obs == ["loaded"] then "ok" else "bad dictionary_not_loaded")
+  | _ =>
   match parseOp? opw, parseObsLine? obs with
   | some op, some (items, after) =>
-    let (ms', bad) := monitorStep ms { op := op, items := items, after := after }
+    let (ms', bad) := monitorStep ms { op := op, items := items, after := after, plant := plantOfToks (opw.drop 1) }
     (ms', verdict bad)
   | none, _ => (ms, "bad-op")
   | _, none => (ms, "bad unparsed_observation")
